@@ -115,6 +115,17 @@ def driver_ops(zn, rnd):
         vec = np.array([rnd.choice([1.5, -2.25, 0.5, 0.0, 3.0]) for _ in range(zn.shape[1])])
         if np.any(vec != 0):
             ops.append(("time_shift", [], (lambda s, c: (lambda z: pb.time_shift(z, s, crop=c)))(vec, rnd.random() < 0.5), True))
+    # array-valued shifts: per channel, per trailing axis (broadcast over the channels), per element
+    if zn.ndim >= 2:
+        shapes = [(zn.shape[1],)] + ([(zn.shape[1],) + (1,) * (zn.ndim - 2), (1,) + zn.shape[2:], zn.shape[1:]] if zn.ndim > 2 else [])
+        for _ in range(2):
+            shp = rnd.choice(shapes)
+            vals = np.array([rnd.choice([1.5, -2.25, 0.5, 3.0, -1.0, 2.75]) for _ in range(int(np.prod(shp)))]).reshape(shp)
+            ops.append(("time_shift", [], (lambda s, c: (lambda z: pb.time_shift(z, s, crop=c)))(vals, rnd.random() < 0.4), True))
+            if isinstance(zn, pb.BasebandSignal):
+                fvals = np.array([rnd.choice([0.2, -0.31, 1.0, 2.4, -1.7]) for _ in range(int(np.prod(shp)))]).reshape(shp)
+                fq = fvals * zn.sample_rate / N
+                ops.append(("freq_shift", [], (lambda f: (lambda z: pb.freq_shift(z, f)))(fq), True))
     ops.append(("ufunc", [], rnd.choice(dr.UFUNCS), False))
     ops.append(("ufunc", [], lambda z: z + z, False))
     ops.append(("ufunc", [], lambda z: np.multiply(z, np.arange(1, z.shape[-1] + 1, dtype=z.dtype)), False))
@@ -339,6 +350,39 @@ def run_binary(n, rnd, out):
                 out.viol.append(("%s:binary-ufunc" % c, m))
 
 
+# ------------------------------------------------------------------ call sequences of one decorated transform
+def run_transform_calls(n, rnd, out):
+    """ONE signal_transform-decorated function with optional keywords, called again and again on
+    Dask-backed signals and their twins: with keywords, without (defaults expected), with dask_kwargs /
+    signal_kwargs given or omitted.  Every call must equal its NumPy twin: nothing of an earlier call
+    may survive into a later one, and the dicts handed in must come back unchanged."""
+    for i in range(n):
+        zn, zd, chunks = random_pair(rnd)
+        seq = [rnd.randrange(len(dr.KW_SETS)) for _ in range(rnd.randint(2, 4))]
+        if i % 2:
+            seq[-1] = 0                         # ... and finally without any keyword
+        for j, k in enumerate(seq):
+            v = rnd.randrange(12)
+            what = "call %d of mb_kw keyword sets %s (variant %d) on %s%s chunks %s" % (
+                j + 1, [dr.KW_SETS[q] for q in seq[:j + 1]], v, type(zn).__name__, list(zn.shape), [list(c) for c in chunks])
+            probs = []
+            pre = dr.summary(zd)
+            s0, t0 = ds.sentinel_count(), ds.task_count()
+            try:
+                rn = dr.call_mb_kw(zn, k, v)
+                rd = dr.call_mb_kw(zd, k, v, probs)
+            except Exception as e:  # noqa
+                out.viol.append(("raises:transform-calls", "%r | %s" % (e, what)))
+                break
+            out.events.append(dr.event("map_blocks", "transform", [], False, pre, dr.summary(rd), s0, ds.sentinel_count(), t0, ds.task_count()))
+            for name_, b_, a_ in probs:
+                out.viol.append(("argument-modified:%s" % name_, "%s came back as %r (was %r) | %s" % (name_, a_, b_, what)))
+            got = rd.compute(scheduler="synchronous") if isinstance(rd.data, da.Array) else rd
+            for c, m, amb in dr.compare_signals(got, rn, False, what):
+                out.viol.append(("%s:transform-calls" % c, m))
+        out.note("driver_op:transform-calls")
+
+
 # ------------------------------------------------------------------ same-object histories
 def run_histories(n, rnd, out):
     """Histories on ONE Dask-backed signal object next to its NumPy twin: looks (compute under some
@@ -487,6 +531,38 @@ def twin_readers(rnd, out):
     return
 
 
+def concurrent_reads(r, name, rnd, out, reps, nread=6, maxn=400):
+    """Several lazy reads of ONE reader computed together (dask.compute of all of them, and their
+    time-concatenation) under the threaded scheduler, `reps` times; every repetition must equal the
+    eager reads.  Synchronous once, as the reference of what the graph itself gives."""
+    import dask
+    n = min(maxn, max(1, len(r) // (nread + 1)))
+    spans = [(j * n, n) for j in range(nread)]
+    if rnd.random() < 0.5:
+        spans = [(o + rnd.randint(0, n // 2), m) for o, m in spans]      # not adjacent: no concatenate
+        adjacent = False
+    else:
+        adjacent = True
+    eager = [r.read(o, m) for o, m in spans]
+    lazy = [r.read(o, m, use_dask=True) for o, m in spans]
+    cat = pb.concatenate(lazy) if adjacent else None
+    for rep_ in range(reps + 1):
+        sch = {"scheduler": "synchronous"} if rep_ == 0 else {"scheduler": "threads", "num_workers": 8}
+        what = "%d dask reads of one %s computed together, %s, repetition %d" % (nread, name, sch["scheduler"], rep_)
+        try:
+            got = dask.compute(*[z.data for z in lazy], **sch)
+            ok = all(np.array_equal(g, e.data) for g, e in zip(got, eager))
+            if ok and cat is not None:
+                ok = np.array_equal(cat.compute(**sch).data, np.concatenate([e.data for e in eager]))
+        except Exception as e:  # noqa
+            out.viol.append(("raises:concurrent-reads", "%r | %s" % (e, what)))
+            return
+        if not ok:
+            out.viol.append(("values:concurrent-reads", "samples differ from the eager reads | " + what))
+            return
+    out.note("driver_op:concurrent-reads-" + name)
+
+
 def _reader_event(out, pre_like, z, n0, n1):
     pre = dict(dr.summary(z))
     pre.update(back="dask", ch=pre["ch"])
@@ -585,6 +661,11 @@ def run_readers(rnd, out, repo, nreads=6):
                 got = zd.compute(scheduler="threads" if j else "synchronous")
                 for c, m, amb in dr.compare_signals(got, zn, False, "%s.read(%d, %d, use_dask, chunks=%r)" % (name, off, n, chunks)):
                     out.viol.append(("%s:reader" % c, m))
+        for name, r in readers:
+            concurrent_reads(r, name, rnd, out, reps=8 if nreads > 4 else 4)
+        concurrent_reads(CountingReader((4000, 3), np.float64, sample_rate=1 * u.MHz), "CountingReader", rnd, out, reps=2)
+        concurrent_reads(dr.SpanReader(shape=(4000, 2), dtype=np.complex64, signal_type=pb.BasebandSignal, sample_rate=1 * u.MHz,
+                                       center_freq=1 * u.GHz), "SpanReader", rnd, out, reps=2)
         p_dada = os.path.join(data, "sample.dada")
         if os.path.exists(p_dada):
             import dask
